@@ -13,6 +13,7 @@
    specification, not a transcription of library code. *)
 From Coq Require Import ZArith NArith List Bool.
 From GoCoap Require Import Base.Bytes Dedup.Spec.
+From GoCoap Require Monitor.Model.
 Import ListNotations.
 Open Scope Z_scope.
 
@@ -81,6 +82,10 @@ Definition c10_handshake_class (completed : list bool) : N :=
    sender's port) -- and to nobody else; responses with an unregistered token go to the application. *)
 Inductive dstep :=
 | DS_Start (tok : list Z) (rcv : Z) (o_exists : bool)        (* observed: ErrKeyAlreadyExists *)
+| DS_StartFail (tok : list Z) (rcv : Z) (o_res : Z)           (* a request whose datagram cannot be sent (destination of
+                                                                  another address family, oversize datagram); observed:
+                                                                  what the call returned: 0 = nil, 1 = ErrKeyAlreadyExists,
+                                                                  2 = another error *)
 | DS_End (tok : list Z)
 | DS_Resp (sender : Z) (tok : list Z) (tag : Z)
           (o_deliv : list (Z * Z * Z))                         (* observed: (receiver, port of the connection passed, tag) *)
@@ -92,19 +97,66 @@ Definition deliv_eqb (a b : Z * Z * Z) : bool :=
 Fixpoint tok_lookup (t : list (list Z * Z)) (tok : list Z) : option Z :=
   match t with [] => None | (k, r) :: rest => if bytes_eqb k tok then Some r else tok_lookup rest tok end.
 
-Fixpoint disc_ok (reg : list (list Z * Z)) (steps : list dstep) : bool :=
+(* 0 = as the property demands; 7 = a response was handed to somebody other than the receiver registered for its
+   token at that time (or not handed to it, or handed over twice, or with another peer's connection); 12 = a token
+   that no request in progress holds was reported as taken (ErrKeyAlreadyExists).  A request is "in progress" from
+   the moment its call registered the receiver until the call returns -- however it returns: cancelled, server
+   stopped, or AT ONCE because its datagram could not be sent (DS_StartFail).  A call that has returned holds
+   nothing: its receiver gets no later response, its token can be used again. *)
+Fixpoint disc_class (reg : list (list Z * Z)) (steps : list dstep) : N :=
   match steps with
-  | [] => true
+  | [] => 0%N
   | DS_Start tok rcv ex :: r =>
       match tok_lookup reg tok with
-      | Some _ => ex && disc_ok reg r
-      | None => negb ex && disc_ok ((tok, rcv) :: reg) r
+      | Some _ => if ex then disc_class reg r else 7%N
+      | None => if ex then 12%N else disc_class ((tok, rcv) :: reg) r
       end
-  | DS_End tok :: r => disc_ok (filter (fun x => negb (bytes_eqb (fst x) tok)) reg) r
-  | DS_Resp sender tok tag od oa :: r =>
+  | DS_StartFail tok rcv res :: r =>
       match tok_lookup reg tok with
-      | Some rcv => list_eqb deliv_eqb od [(rcv, sender, tag)] && negb oa
-      | None => match od with [] => oa | _ => false end
-      end && disc_ok reg r
-  | DS_Ping :: r => disc_ok reg r
+      | Some _ => disc_class reg r
+      | None => if res =? 1 then 12%N else disc_class reg r
+      end
+  | DS_End tok :: r => disc_class (filter (fun x => negb (bytes_eqb (fst x) tok)) reg) r
+  | DS_Resp sender tok tag od oa :: r =>
+      if match tok_lookup reg tok with
+         | Some rcv => list_eqb deliv_eqb od [(rcv, sender, tag)] && negb oa
+         | None => match od with [] => oa | _ => false end
+         end
+      then disc_class reg r else 7%N
+  | DS_Ping :: r => disc_class reg r
   end.
+Definition disc_ok (reg : list (list Z * Z)) (steps : list dstep) : bool := N.eqb (disc_class reg steps) 0.
+
+(* servers with keep-alive (options.WithKeepAlive) and several peers: "garbage, oversize messages, stalled
+   handshakes or the closure of one peer never change what other peers receive" -- connect-and-stall peers that
+   never answer the server's pings and are dropped by keep-alive included.  Differential, on observations only:
+   every peer is observed twice, in the run WITH the other peers and in a run in which it is ALONE with the same
+   server configuration, the same events of its own at the same (virtual) times and the same housekeeping rounds.
+   What the server does to it -- the pings it sends to it at each round, the round at which it closes its
+   connection, whether its requests are answered -- must be the same in both.  Nothing is demanded here about
+   WHEN a lone peer is pinged or dropped (that is C18's matter): only that the others make no difference. *)
+Module KM := GoCoap.Monitor.Model.
+Definition kitem := (KM.ev * list KM.obs)%type.
+Definition kev_eqb (a b : KM.ev) : bool :=
+  match a, b with
+  | KM.Recv x, KM.Recv y => x =? y
+  | KM.Pong g x, KM.Pong h y => (g =? h) && (x =? y)
+  | KM.PongCb g, KM.PongCb h => g =? h
+  | KM.Tick x p, KM.Tick y q => (x =? y) && Bool.eqb p q
+  | KM.Dgram x p, KM.Dgram y q => (x =? y) && Bool.eqb p q
+  | _, _ => false
+  end.
+Definition kobs_eqb (a b : KM.obs) : bool :=
+  match a, b with
+  | KM.Cancel x, KM.Cancel y => x =? y
+  | KM.Ping x, KM.Ping y => x =? y
+  | KM.PingFail x, KM.PingFail y => x =? y
+  | KM.Close, KM.Close => true
+  | _, _ => false
+  end.
+Definition kitem_eqb (a b : kitem) : bool := kev_eqb (fst a) (fst b) && list_eqb kobs_eqb (snd a) (snd b).
+
+(* per peer: (seen with the others, seen alone), each = (trace, were its requests answered correctly) *)
+Definition c10_keepalive_class (peers : list ((list kitem * list bool) * (list kitem * list bool))) : N :=
+  if forallb (fun p => list_eqb kitem_eqb (fst (fst p)) (fst (snd p)) && list_eqb Bool.eqb (snd (fst p)) (snd (snd p))) peers
+  then 0%N else 11%N.
